@@ -483,6 +483,8 @@ def contains(x, c):
     x, c = lift(x), lift(c)
     if isinstance(c, PyTup):
         return z3.Or(*[eq(x, y) for y in c.items]) if c.items else z3.BoolVal(False)
+    if getattr(c.ty, "contains_fn", None) is not None:
+        return c.ty.contains_fn(x, c)       # an opaque container with a declared membership predicate
     if c.ty is STR:
         return z3.Contains(c.t, coerce(x, STR).t)
     if isinstance(c.ty, SeqT):
